@@ -340,3 +340,89 @@ SPECS['C17'] = {
               bounds='strings of ANY length: HC_STRING_PATTERN (fullmatch) == [A-Z0-9_-]+ as regular languages (z3 4.8, z3 5.1, cvc5)',
               entry=['validate_string'])],
 }
+
+D = R + 'data:'
+NP_STUBS = ['npstub (provenance arrays: owner, column, row range, dtype incl. byte order, width, view/copy; validated '
+            'differentially against real numpy on every run)', 'FakeH5File/FakeH5Module', 'StructShim', 'Rope']
+DATA_FUNCS = ['SourceDataWrapper.__init__', 'SourceDataWrapper.determine_dtypes', 'SourceDataWrapper.__getitem__',
+              'SourceDataWrapper.load_chunk', 'SourceDataWrapper.make_chunked_generator', 'SourceDataWrapper.make_wrapper',
+              'NumpyDataWrapper.__init__', 'NumpyDataWrapper.load_chunk', 'NumpyDataWrapper._check_source_arr',
+              'DictDataWrapper.__init__', 'DictDataWrapper._check_source_dict', 'HDF5DataWrapper.__init__',
+              'MultiFrameData.__init__', 'MultiFrameData.__iter__', 'MultiFrameData.__next__', 'MultiFrameData.__len__',
+              'FrameData.__init__', 'FrameData._make_body_bytes', 'ReprCodeConverter.validate_numpy_dtype',
+              'FrameItem.channel_name_mapping', 'FrameItem.known_channel_dtypes_mapping']
+NP_OUT = ['numeric bit patterns through numpy cast / astype / tobytes kernels, NaN payloads, strides and memory layout '
+          '(C code; the stub carries no element values) - replays exercise them with real numpy on each witness only',
+          'real HDF5 I/O (h5py.File is a dict-like stub)']
+NP_SELF = ['venv:vf.stubs.selftest:selftest_rope_struct', 'venv:vf.stubs.selftest:selftest_npstub']
+
+_window = _pair('c11', 'window', (300, 600), 'every source kind (dict, structured copy path, structured fast path, HDF5); total<=1000 rows; '
+                'any window 0<=from<to<=total or open; any chunk 0<=start<=stop<=n_rows or open', ['SourceDataWrapper.load_chunk', 'NumpyDataWrapper.load_chunk'],
+                replay=D + 'replay_window', validate=D + 'replay_window', shards=(4, 4)) + [
+    dict(fn=H + 'c11.wit_window_fast_path_offset', kind='witness', timeout=(60, 60), validate=D + 'replay_window')]
+_iteration = _pair('c11', 'iteration', (300, 900), 'every source kind; 1..6 (thorough 40) rows from any offset; input chunk 1..n+2 or None',
+                   ['MultiFrameData.__next__', 'SourceDataWrapper.make_chunked_generator'], replay=D + 'replay_iteration',
+                   validate=D + 'replay_iteration', shards=(4, 4))
+_tiling = _pair('c11', 'tiling', (120, 300), 'n<=40 (thorough 10**6), chunk<=n+20 or None, n//chunk<=6', ['SourceDataWrapper.make_chunked_generator'],
+                replay=D + 'replay_tiling', validate=D + 'replay_tiling')
+_fdata = _pair('c11', 'fdata_body', (300, 600), 'every source kind x 8 dtypes x both byte orders x scalar/width<=4096 x frame number<2**30',
+               ['FrameData._make_body_bytes'], replay=D + 'replay_fdata_body', validate=D + 'replay_fdata_body', shards=(4, 4)) + [
+    dict(fn=H + 'c11.wit_fdata_bigendian_2d', kind='witness', timeout=(60, 60), validate=D + 'replay_fdata_body')]
+_descr = _pair('c11', 'descriptors', (300, 600), 'every source kind x 8 dtypes x cast/no cast x width 0..2**20 x user dimension / element limit given or not, 1..2**20',
+               ['ChannelItem.set_dimension_and_repr_code_from_data', 'ChannelItem._set_dimension_from_data', 'ChannelItem._set_repr_code_from_data',
+                'ChannelItem._compare_element_limit_vs_dimension', 'ChannelItem._run_checks_and_set_defaults', 'ChannelItem._set_cast_dtype'],
+               replay=D + 'replay_descriptors', validate=D + 'replay_descriptors', shards=(4, 4))
+_reject = _pair('c11', 'window_reject', (120, 300), 'every source kind; from 0..1005, to 0..total', ['SourceDataWrapper.__init__'],
+                replay=D + 'replay_window_reject', validate=D + 'replay_window_reject')
+_rowcount = _pair('c11', 'rowcount', (120, 300), 'dict and HDF5 sources; row counts 1..50, different; either dataset first', ['SourceDataWrapper.__init__'],
+                  replay=D + 'replay_rowcount', validate=D + 'replay_rowcount')
+_badsrc = _pair('c11', 'bad_source', (60, 120), 'unsupported dtype (int64/float16), 3-D dataset, missing dataset', ['SourceDataWrapper.determine_dtypes'],
+                replay=D + 'replay_bad_source', validate=D + 'replay_bad_source')
+_datadict = _pair('c11', 'data_dict', (120, 300), 'inline + passed data, extra and overlapping keys, 1..4 rows', ['LogicalFile._make_multi_frame_data'],
+                  replay=D + 'replay_data_dict', validate=D + 'replay_data_dict')
+_taint = _pair('c11', 'taint', (120, 300), 'every source kind x 1..3 rows x chunk 1..4 x cast x byte order', ['FrameData._make_body_bytes', 'SourceDataWrapper.load_chunk'],
+               replay=D + 'replay_taint', validate=D + 'replay_taint')
+_twofr = _pair('c11', 'two_frames', (300, 600), 'two frames, 1..4 rows each, chunk 1..5', ['MultiFrameData.__next__'],
+               replay=D + 'replay_two_frames', validate=D + 'replay_two_frames')
+
+SPECS['C11'] = {'functions': DATA_FUNCS, 'stubs': NP_STUBS, 'cuts': CUTS, 'assumptions': CH_ASSUME, 'outside': NP_OUT,
+                'selftests': NP_SELF, 'obligations': _window + _reject + _iteration + _tiling}
+SPECS['C03'] = {'functions': DATA_FUNCS, 'stubs': NP_STUBS, 'cuts': CUTS, 'assumptions': CH_ASSUME,
+                'outside': NP_OUT + ['the claim is structural: one record per row, numbering, referenced frame, slot order, slot byte '
+                                     'length and byte order under the stub contract; value bit patterns only in replays'],
+                'selftests': NP_SELF, 'obligations': _iteration + _tiling + _fdata + _window}
+SPECS['C08'] = {'functions': DATA_FUNCS + ['ChannelItem.set_dimension_and_repr_code_from_data', 'ChannelItem._set_dimension_from_data',
+                                           'ChannelItem._set_repr_code_from_data', 'ChannelItem._compare_element_limit_vs_dimension',
+                                           'ChannelItem._run_checks_and_set_defaults', 'ChannelItem._set_cast_dtype', 'ReprCodeAttribute.set_from_dtype'],
+                'stubs': NP_STUBS + ['kint/kfloat'], 'cuts': CUTS, 'assumptions': CH_ASSUME + SMT_ASSUME,
+                'outside': NP_OUT + ['what numpy reports as shape/dtype for exotic arrays'],
+                'selftests': NP_SELF + ['venv:vf.stubs.selftest:selftest_format_table'], 'obligations': _descr + _fdata}
+SPECS['C19'] = {'functions': DATA_FUNCS + ['LogicalFile._make_multi_frame_data'], 'stubs': NP_STUBS, 'cuts': CUTS, 'assumptions': CH_ASSUME,
+                'outside': NP_OUT + ['numpy / h5py internals and the file on disk: the claim is the Python-level data flow under '
+                                     'numpy\'s documented view/copy contract (in-place operations the stub models: slice/field '
+                                     'assignment, byteswap(inplace), sort, fill, |=, +=, *=); replays compare real arrays and the '
+                                     'HDF5 file bit-for-bit before/after on each witness'],
+                'selftests': NP_SELF, 'obligations': _taint + _datadict}
+
+
+def _find(pid, name):
+    return [o for o in SPECS[pid]['obligations'] if o['fn'].endswith('.' + name)]
+
+
+SPECS['C12'] = {
+    'functions': sorted(set(DATA_FUNCS[:6] + ['write_struct', 'write_struct_uvari', 'write_struct_ident', 'write_struct_ascii',
+                                              'LogicalFile.check_objects', 'LogicalFile._check_completeness', 'FileHeaderItem.__init__',
+                                              'StorageUnitLabel.represent_as_bytes', 'get_ascii_bytes', 'Attribute._write_for_body',
+                                              'Attribute._write_values', 'EFLRSet._make_set_component_bytes'])),
+    'stubs': NP_STUBS + ['LenStr'], 'cuts': CUTS, 'assumptions': CH_ASSUME,
+    'outside': NP_OUT + ['"accepted => faithful" is the conjunction of the other properties\' checks; this check holds the rejection side',
+                         'non-ASCII text: call-site contract on .encode("ascii") (strict), see C06',
+                         'windows with to_idx beyond the data (not in the property\'s list of invalid inputs)'],
+    'selftests': NP_SELF,
+    'obligations': _rowcount + _badsrc + _reject
+    + _pair('c12', 'completeness', (120, 120), 'origin / channel / frame present or not (all combinations)', ['LogicalFile._check_completeness'])
+    + _pair('c12', 'long_names', (120, 300), 'object name, units, IDENT value, set name of 0..70000 characters', ['write_struct_ident'])
+    + _find('C06', 'ob_fixed_int') + _find('C06', 'reach_fixed_int') + _find('C06', 'ob_uvari') + _find('C06', 'ob_ident_len')
+    + _find('C06', 'ob_ascii_len') + _find('C06', 'ob_obname') + _find('C01', 'ob_sul_numbers') + _find('C09', 'ob_file_header_reject')
+    + _find('C04', 'ob_item'),
+}
